@@ -56,7 +56,7 @@ def run(tier, wd):
             pr = subprocess.run([racebin, "conc", str(rounds), str(gor), str(seed)], capture_output=True, text=True, timeout=900 if q else 5400, env=env)
         except subprocess.TimeoutExpired:
             rep.violation("concurrent run (seed %d) did not finish within the time limit (15 min quick / 90 min thorough)" % seed, {"engine": "conc", "seed": seed, "rounds": rounds, "goroutines": gor})
-            continue
+            break      # (the further runs would wait for the same time limit)
         races = pr.stderr.count("WARNING: DATA RACE")
         line = [l for l in pr.stdout.splitlines() if l.startswith("CONC ")]
         if races:
